@@ -82,6 +82,7 @@ class StandardObserver:
         self.pending_finalise = None
         self.in_consume = False
         self.kill_after_mid_ckpt = False
+        self.kill_after_stale_ckpt = False
         self.cond_by_it = {}     # iteration -> condition value compared by the loop guard
         self.ckpt_entry = None
         self.ckpt_wrote = False
@@ -122,6 +123,17 @@ class StandardObserver:
         }
 
     counts_resume = counts
+
+    @staticmethod
+    def pool_flags(ns):
+        """(usable, stale): the flow proposal's pool is usable iff it is flagged populated and has indices left;
+        stale = indices left over although the pool was invalidated (a training happened)."""
+        fp = getattr(ns, "_flow_proposal", None)
+        if fp is None:
+            return False, False
+        idx = bool(getattr(fp, "indices", None))
+        pop = bool(getattr(fp, "populated", False))
+        return bool(pop and idx), bool(idx and not pop)
 
     def elapsed(self):
         import datetime as _dt
@@ -274,6 +286,19 @@ class StandardObserver:
 
         NestedSampler.check_state = check_state
 
+        # --- C12: what check_resume makes of the restored pool
+        orig_check_resume = NestedSampler.check_resume
+
+        def check_resume(ns):
+            was = bool(getattr(ns, "resumed", False))
+            r = orig_check_resume(ns)
+            if was:
+                eff, stale = obs.pool_flags(ns)
+                obs.em.emit("resume_checked", pool_eff=eff, pool_stale=stale, **obs.counts(ns))
+            return r
+
+        NestedSampler.check_resume = check_resume
+
         # --- draws
         for cls in {AnalyticProposal, RejectionProposal, FlowProposal} | _subclasses(FlowProposal):
             if "draw" in cls.__dict__:
@@ -291,9 +316,10 @@ class StandardObserver:
             obs.ckpt_wrote = True
             if obs.ns is not None and obj is obs.ns:
                 mid = bool(getattr(obs, "in_consume", False))
+                eff, stale = obs.pool_flags(obj)
                 obs.em.emit("ckpt", digest=obs.deep_digest(obj), live=obs.live_state(obj), mid=mid,
-                            **obs.tails(obj), **obs.counts(obj))
-                if mid and obs.kill_after_mid_ckpt:
+                            pool_eff=eff, pool_stale=stale, **obs.tails(obj), **obs.counts(obj))
+                if (mid and obs.kill_after_mid_ckpt) or (stale and not mid and obs.kill_after_stale_ckpt):
                     obs.em.emit("kill", evals_here=obs.evals_here, evals=int(obs.model.likelihood_evaluations))
                     os._exit(137)
             return r
